@@ -273,15 +273,9 @@ func (p *Pkg) severityDomain(name string) []string {
 	return out
 }
 
-func (w *World) rulesRealMono(p *Pkg, ctx *symCtx, trees map[string]*Ex, roundTree *Ex, roundSym string, out *[]Obligation) {
-	k := p.Key
-	if w.Wants != nil && !w.Wants("R12.real") {
-		return
-	}
-	add := func(ok bool, inst string, n ast.Node, detail string) {
-		*out = append(*out, Obligation{Rule: "R12.real", Instance: k + "." + inst, Pos: p.pos(n), OK: ok, Detail: detail, NonTrivial: true})
-	}
-	// weight tables of the code, by tabulation of the helpers (as in rulesWeights)
+
+// codeWeights tabulates the code's weight helpers: "C" -> value -> weight, "PR|S" -> "L|C" -> weight.
+func (p *Pkg) codeWeights(ctx *symCtx) map[string]map[string]*big.Rat {
 	weights := map[string]map[string]*big.Rat{}
 	for _, u := range ctx.uses {
 		var bases []string
@@ -319,6 +313,18 @@ func (w *World) rulesRealMono(p *Pkg, ctx *symCtx, trees map[string]*Ex, roundTr
 		rec(0)
 		weights[key] = tbl
 	}
+	return weights
+}
+
+func (w *World) rulesRealMono(p *Pkg, ctx *symCtx, trees map[string]*Ex, roundTree *Ex, roundSym string, out *[]Obligation) {
+	k := p.Key
+	if w.Wants != nil && !w.Wants("R12.real") {
+		return
+	}
+	add := func(ok bool, inst string, n ast.Node, detail string) {
+		*out = append(*out, Obligation{Rule: "R12.real", Instance: k + "." + inst, Pos: p.pos(n), OK: ok, Detail: detail, NonTrivial: true})
+	}
+	weights := p.codeWeights(ctx)
 	rounds := map[string]*Ex{roundSym: roundTree}
 	methods := []string{"BaseScore", "TemporalScore"}
 	if k == "31" {
@@ -328,6 +334,10 @@ func (w *World) rulesRealMono(p *Pkg, ctx *symCtx, trees map[string]*Ex, roundTr
 		t := trees[mname]
 		fd := p.method(mname)
 		if t == nil || roundTree == nil {
+			// the formula or the rounding helper was not recognised: that is C03/C05's
+			// finding, not a monotonicity violation
+			*out = append(*out, Obligation{Rule: "R12.real", Instance: k + "." + mname, Pos: p.pos(fd), OK: true, NonTrivial: false,
+				Detail: "not decided in this run: the formula tree or the rounding helper of this method was not recognised (reported by R03/R05.formula or .round)"})
 			continue
 		}
 		names := namesOfTree(t)
